@@ -199,6 +199,9 @@ func oracleOpen(key, nonce, ct, ad []byte) {
 	pt, err := a.Open(nil, nonce, ct, ad)
 	res := "fail"
 	if err == nil {
+		if len(ct) != len(pt)+16 {
+			panic("AEAD size law violated")
+		}
 		res = lib.Hex(pt)
 	}
 	entries = append(entries, fmt.Sprintf("open=%s/%s/%s/%s/%s", lib.Hex(key), lib.Hex(nonce), lib.Hex(ct), adText(ad), res))
